@@ -34,13 +34,18 @@ BOUNDS = {"quick": {"depth": 2, "disposables": 1, "spawns": 1}, "thorough": {"de
 EXHAUSTIVE = {"quick": True, "thorough": True}
 SAMPLE_EVERY = {"quick": 1500, "thorough": 60000}
 
-OPS = ["ctx_cancel", "task_cancel", "pause", "check"]
+OPS = ["ctx_cancel", "task_cancel", "pause", "ext", "check"]
+# pause: suspension point; a pending cancel request is delivered there, the script (user code)
+#        catches it and goes on - the task *has been asked* to cancel from then on
+# ext:   suspension point during which somebody else calls task.cancel() (delivered at once)
 
 DISP = [
     {"enter": "ok", "exit": "ok", "yields": "none"},
     {"enter": "susp_ok", "exit": "ok", "yields": "one"},
     {"enter": "ok", "exit": "susp_ok", "yields": "none"},
     {"enter": "susp_ok", "exit": "susp_ok", "yields": "none"},
+    {"enter": "ok", "exit": "raise", "yields": "none"},
+    {"enter": "ok", "exit": "susp_raise", "yields": "none"},
 ]
 SPAWN = [
     {"kind": "ret", "pauses": 1},
@@ -138,18 +143,28 @@ def _check_script(program, ch: Chooser) -> Result:
                         )
                 else:
                     fut = loop.create_future()
-                    pauses.append(fut)
-                    log.append("pause")
-                    await fut  # a pending cancellation is delivered here and ends the script
+                    pauses.append((fut, op))
+                    if op == "ext":
+                        requested = True
+                    try:
+                        await fut
+                        log.append(op)
+                    except asyncio.CancelledError:
+                        log.append(f"{op}:cancelled-caught")  # user code catches; request stands
+                        if not requested:
+                            viols.append(viol("check", "spurious-cancellation", "no CancelledError", "raised", script=program["script"]))
 
         task = loop.create_task(script())
         for _ in range(10):
             loop.run_ready()
             if task.done():
                 break
-            for f in pauses:
+            for f, kind in pauses:
                 if not f.done():
-                    f.set_result(None)
+                    if kind == "ext":
+                        task.cancel()  # external request while the task is suspended
+                    else:
+                        f.set_result(None)
         if not task.done():
             viols.append(viol("check", "script-hangs", "done", "pending"))
         asked = any(op in ("ctx_cancel", "task_cancel") for op in program["script"])
